@@ -2,8 +2,10 @@
 //! `anda_object_store`'s two wrappers, the operation alphabet, the read
 //! battery and the comparison with the plain `InMemory` reference store.
 
+pub mod attrs;
 pub mod battery;
 pub mod fix;
 pub mod hist;
+pub mod lag;
 pub mod ops;
 pub mod tamper;
